@@ -56,9 +56,9 @@ func cpkLeaf(c *engine.Chooser, name string, k cfg) {
 	crps := make([]multiparty.PublicKeyGenCRP, k.n)
 	shares := make([]multiparty.PublicKeyGenShare, k.n)
 	for i := range protos {
-		if hist > 0 { // the instance already served another run (other key, other output)
+		if hist > 0 { // the instance already served another run: the same key object with another CRS / another key
 			scratch := protos[i].AllocateShare()
-			protos[i].GenShare(P.SK[(i+1)%k.n], protos[i].SampleCRP(mp.CRS(1-k.crs)), &scratch)
+			protos[i].GenShare(P.SK[(i+hist-1)%k.n], protos[i].SampleCRP(mp.CRS(1-k.crs)), &scratch)
 			protos[i].AggregateShares(scratch, scratch, &scratch)
 		}
 		crps[i] = protos[i].SampleCRP(mp.CRS(k.crs))
@@ -136,7 +136,7 @@ func axes(c *engine.Chooser) (inst, hist int) {
 	inst = c.Choose(3, "instances")
 	hist = c.Choose(3, "history")
 	c.Cover("instances", mp.InstanceNames[inst])
-	c.Cover("history", [...]string{"first-use", "after-run-at-lower-shape", "after-run-at-other-shape"}[hist])
+	c.Cover("history", [...]string{"first-use", "after-run-at-lower-shape-same-keys", "after-run-at-other-shape-other-keys"}[hist])
 	return
 }
 
